@@ -14,7 +14,8 @@
    SlotsRespected fails there (TLC's counterexample is the finding's input); with CheckSlots = TRUE (the
    ideal) it holds.  The behaviours' terminal states are the predicted outcomes replayed on the VM. *)
 EXTENDS Naturals, TLC, Json
-CONSTANTS FramesMax, SlotsMax, Widths, Temps, Depths, CheckSlots
+CONSTANTS FramesMax, SlotsMax, Widths, Temps, Depths, CheckSlots,
+          Nests, SafeNest, UnsafeNest     \* nesting depths of data; what the host stack certainly carries / certainly does not
 VARIABLES frames, slots, left, w, t, depth, status
 vars == <<frames, slots, left, w, t, depth, status>>
 
@@ -37,6 +38,12 @@ Terminal == status # "run"
 (* how close the run came to the slot budget: cases within Margin of it are not replayed (the exact
    number of transient slots an expression needs is not part of this model) *)
 Margin == 300
-Clear == (slots + Margin < SlotsMax) \/ status = "overrun" /\ slots > SlotsMax + Margin
+Clear == (slots + Margin < SlotsMax) \/ (status = "overrun" /\ slots > SlotsMax + Margin)
+(* Printing, comparing, hashing and tracing a value recurse over its nesting on the HOST stack.  The property
+   demands a reported error (or success) at any depth; the code recurses without a bound - the recorded finding
+   `deeply-nested-data-overflows-native-stack`.  Depths up to SafeNest must simply work. *)
+NestOutcome(n) == IF n <= SafeNest THEN "done" ELSE IF n >= UnsafeNest THEN "native-overflow" ELSE "unclear"
+EmitNests == (frames = 1 /\ status = "run" /\ w = (CHOOSE x \in Widths : TRUE) /\ t = (CHOOSE x \in Temps : TRUE) /\ depth = (CHOOSE x \in Depths : TRUE)) =>
+                \A n \in Nests : PrintT(<<"NEST", ToJson([nest |-> n, status |-> NestOutcome(n)])>>)
 Emit == Terminal => PrintT(<<"LIMIT", ToJson([w |-> w, t |-> t, depth |-> depth, status |-> status, frames |-> frames, slots |-> slots, clear |-> Clear])>>)
 =============================================================================
